@@ -31,25 +31,29 @@ RULE = ("inputs = (a) 1-5 stacked token/byte/line mutations of corpus chunks (di
         "numeric boundary literals, non-ASCII letters/digits, NUL/control chars, quote/bracket damage, fragments and lines "
         "harvested from other chunks), (b) grammar-directed soups of generic-syntax ops over a builtin attribute/type grammar "
         "with per-production error injection, (c) cross-chunk line splices, (d) repetition ladders prefix+unit*k+suffix "
-        "(k doubling) for ~85 fixed and random families (scaling probe), (e) unmutated chunks for calibration; each parsed "
-        "with allow_unregistered on/off. An input is non-trivial if it differs from its seed chunk and the lexer produced "
-        ">= 3 tokens (parser got past the first token); distinct = distinct input texts (sha1)")
+        "(k doubling up to 32 KB quick / 128 KB thorough) for 85 fixed and some random families (scaling probe), (e) a lexer "
+        "matrix of every (token prefix, pumped unit, stopper) combination at k=20/24/28 (exponential regexes) and a sample at "
+        "k=4096..16384 (polynomial), (f) the minimal witnesses of every mechanism found so far, (g) unmutated chunks for "
+        "calibration; fuzz inputs are parsed with allow_unregistered on (70%) or off. An input is non-trivial if it differs "
+        "from its seed chunk and the lexer produced >= 3 tokens (parser got past the first token); distinct = distinct input "
+        "texts (sha1)")
 LEVEL_TEXT = ("Every generated text is parsed by the real parser in a killable child with CPU accounting; the outcome monitor "
               "accepts only a returned module or a ParseError/DiagnosticException-family exception (and requires str() of it to "
               "work), everything else is classified by exception type and innermost raising xDSL function; time is judged "
-              "against 1 s + 1 ms/char with a doubling probe, hangs are killed at 20x budget. Held = no crash in tier A and no "
-              "hang/super-linear input in either tier among the inputs explored.")
+              "against 1 s + 1 ms/char with a doubling probe, hangs are killed at 20x budget. Held = no crash in tier A (no "
+              "dialect custom-syntax code on the stack) and no hang/super-linear input in either tier among the inputs explored.")
 LEVEL_NOTE = ("trusts CPython's time.process_time / /proc CPU accounting, faulthandler stack dumps and the tier classifier (stack "
               "frames by file); recursion limit is CPython's default 1000 as under xdsl-opt; inputs are valid Python str without "
-              "lone surrogates; dialect custom-syntax crash sites (tier B) are reported as observations, not in the verdict")
+              "lone surrogates; dialect custom-syntax crash sites (tier B) are reported as observations, not in the verdict; "
+              "over-budget inputs whose cost does not grow >= 3.5x on a doubled repetition are observations as well")
 TECHNIQUE = ("invariant at a hook: outcome/exception-site classifier and CPU budget monitor around Parser.parse_module in killable "
              "workers, mutation + grammar fuzzing, doubling (scaling) probe for time")
 ENGINES = ["harness", "corpus", "trace"]
 ASSUMPTIONS = ["only ParseError (incl. MultipleSpansParseError) and DiagnosticException (incl. VerifyException) are diagnostics, as in xdsl_opt_main.run",
-               "CPU budget 1 s + 1 ms/char is ~1000x the measured normal cost (2-3 us/char); super-linear needs >= 3.5x growth on a doubled repetition",
+               "CPU budget 1 s + 1 ms/char is ~500-1000x the measured normal cost (2 us/char); super-linear needs >= 3.5x growth on a doubled repetition",
                "RecursionError escaping parse_module counts as an internal error (deep nesting is a realistic hostile input)",
-               "tier B (dialect custom parsers) crash sites are observations only: their population does not saturate"]
-JOB_TIMEOUT = {"quick": 900, "thorough": 5400}
+               "tier B (dialect custom parsers) crash sites are observations only: their population does not saturate (3-6 new keys per 80k inputs)"]
+JOB_TIMEOUT = {"quick": 1500, "thorough": 10800}
 
 # Tier-B (dialect custom syntax) crash sites: verdict or observation?  The saturation campaign (see report) kept finding
 # new (type, function) keys with every new seed, so they are evidence-only observations.
@@ -60,13 +64,13 @@ HANG_FACTOR = 20.0
 GROWTH = 3.5
 BATCH = 150
 PUMP_MAXLEN = 131072  # repetition ladders double k until the text exceeds this many characters
-MAX_HANGS_PER_SHARD = 4
+MAX_HANGS_PER_SHARD = 8
 RLIMIT_AS = 3 << 30
 
 SIZES = {
     # per shard: corpus, mut, soup, attr, splice, random pumps ; shards
-    "quick": dict(shards=16, corpus=40, mut=2600, soup=700, attr=1200, splice=500, rpump=6, pump_maxlen=32768),
-    "thorough": dict(shards=32, corpus=100, mut=30000, soup=9000, attr=14000, splice=6000, rpump=60, pump_maxlen=131072),
+    "quick": dict(shards=16, corpus=30, mut=1700, soup=450, attr=750, splice=300, rpump=3, pump_maxlen=32768, lexpump_big_every=40),
+    "thorough": dict(shards=32, corpus=100, mut=22000, soup=7000, attr=11000, splice=4500, rpump=20, pump_maxlen=131072, lexpump_big_every=8),
 }
 
 
@@ -84,7 +88,8 @@ def plan(tier, seed):
         jobs.append({"mode": "fuzz", "tier": tier, "seed": seed, "shard": i, "nshards": n,
                      "corpus": z["corpus"], "mut": int(z["mut"] * scale), "soup": int(z["soup"] * scale),
                      "attr": int(z["attr"] * scale), "splice": int(z["splice"] * scale), "rpump": int(z["rpump"] * scale),
-                     "fixed_pumps": True, "deep_probe": i == 0, "pump_maxlen": z["pump_maxlen"]})
+                     "fixed_pumps": True, "deep_probe": i == 0, "pump_maxlen": z["pump_maxlen"],
+                     "lexpump_big_every": z["lexpump_big_every"]})
     return jobs
 
 
@@ -108,6 +113,8 @@ class G:
 
 DIAG_HELPERS = {"raise_error", "expect", "_parse_token", "parse_punctuation", "parse_keyword", "_consume_token",
                 "parse_characters", "_raise_wrong_str_enum_value_error"}
+
+
 def frame_is_tier_b(filename: str) -> bool:
     """dialect custom syntax: any dialect module except the builtin dialect, and the declarative assembly format engine"""
     if "/xdsl/dialects/" in filename:
@@ -263,10 +270,28 @@ def task_list(job):
                 tasks.append(("pump", k))
     for k in range(job.get("rpump", 0)):
         tasks.append(("rpump", k))
+    nlex = c07_mut.lex_matrix_size()
+    for k in range(nlex):  # every (prefix, unit, stopper) combination once per run, spread over the shards
+        if k % job["nshards"] == job["shard"] and job.get("lexpump", True):
+            tasks.append(("lexpump", k))
+            if (k // job["nshards"]) % job.get("lexpump_big_every", 10) == job["seed"] % job.get("lexpump_big_every", 10):
+                tasks.append(("lexpump-big", k))
+    for k in range(c07_mut.lit_matrix_size()):  # every (literal, builtin type, context) combination once per run
+        if k % job["nshards"] == job["shard"] and job.get("litmatrix", True):
+            tasks.append(("litmatrix", k))
+    if job["shard"] == 0:  # minimal witnesses of every mechanism found so far (regression inputs; diagnostics once fixed)
+        for k in range(len(witness_files())):
+            tasks.append(("witness", k))
     for kind in ("corpus", "mut", "soup", "attr", "splice"):
         for k in range(job.get(kind, 0)):
             tasks.append((kind, k))
     return tasks
+
+
+def witness_files():
+    import glob
+    return sorted(glob.glob(os.path.join(os.path.dirname(os.path.dirname(os.path.dirname(os.path.abspath(__file__)))),
+                                         "witnesses", "C07", "*.txt")))
 
 
 def task_rng(job, kind, k):
@@ -279,6 +304,12 @@ def gen_input(job, kind, k):
     rng = task_rng(job, kind, k)
     if kind == "text":
         return job["text"], None, {"kind": "replay"}
+    if kind == "litmatrix":
+        return c07_mut.lit_matrix_text(k), None, {"kind": kind}
+    if kind == "witness":
+        f = witness_files()[k]
+        with open(f, encoding="utf-8") as fh:
+            return fh.read(), None, {"kind": kind, "name": os.path.basename(f)[:-4]}
     if kind == "corpus":
         idx = (job["shard"] * 7919 + k * 104729 + job["seed"] * 31) % len(G.seeds)
         return G.seeds[idx], G.seeds[idx], {"kind": kind, "chunk": G.chunks[idx][0]}
@@ -351,7 +382,7 @@ def diag_site(e: BaseException):
     return last or ("?", 0)
 
 
-GENERIC_HELPERS = {"lex", "_lex_bare_identifier", "_lex_number", "_lex_prefixed_ident", "_consume_regex", "_consume_whitespace",
+GENERIC_HELPERS = {"lex", "_consume_regex", "_consume_whitespace",
                    "_form_token", "text", "len", "slice", "at", "_resume_from", "_consume_token", "_parse_optional_token",
                    "_parse_token", "_parse_optional_token_in", "_current_token", "_get_chars", "_peek_chars", "_consume_chars",
                    "_is_in_bounds", "get_location", "print_with_context", "get_start_of_line", "get_end_of_line", "expect",
@@ -360,20 +391,28 @@ GENERIC_HELPERS = {"lex", "_lex_bare_identifier", "_lex_number", "_lex_prefixed_
                    "is_spelling_of_punctuation", "get_punctuation_kind_from_name", "__new__", "__setattr__", "__getattr__"}
 
 
+def pick_site(frames):
+    """Mechanism site of a slow/hung parse from its stack (innermost first, [(filename, function name)]):
+    dialect custom syntax on the stack -> innermost dialect frame; otherwise the innermost frame of the parser
+    package / lexers / exceptions that is not a generic token helper (e.g. a slow `pack` or big-int shift below the dense
+    literal parser is keyed by the dense literal parser)."""
+    xf = [(fn, name) for fn, name in frames if "/xdsl/" in fn and "/verif/" not in fn]
+    for fn, name in xf:
+        if frame_is_tier_b(fn):
+            return f"{os.path.basename(fn)}:{name}"
+    for fn, name in xf:
+        if ("/xdsl/parser/" in fn or fn.endswith(("lexer.py", "exceptions.py"))) and name not in GENERIC_HELPERS:
+            return f"{os.path.basename(fn)}:{name}"
+    return f"{os.path.basename(xf[0][0])}:{xf[0][1]}" if xf else "?"
+
+
 def _site_of_frame(frame):
-    """innermost xDSL function of a stack that is not a generic lexing/token helper (the mechanism's function)"""
+    frames = []
     f = frame
-    first = None
     while f is not None:
-        fn = f.f_code.co_filename
-        if "/xdsl/" in fn and "/verif/" not in fn:
-            q = getattr(f.f_code, "co_qualname", f.f_code.co_name)
-            if first is None:
-                first = q
-            if f.f_code.co_name not in GENERIC_HELPERS:
-                return q
+        frames.append((f.f_code.co_filename, f.f_code.co_name))
         f = f.f_back
-    return first or "?"
+    return pick_site(frames)
 
 
 def _slow_handler(signum, frame):
@@ -542,7 +581,7 @@ def account(b: Batch, rec, text, seed_text, meta, unreg):
             b.s("verify_stage_crash_sites_observed", rec["verify"])
         if rec.get("verify_cpu", 0) > budget(rec["len"]):
             b.c("verify_stage_over_budget_observed")
-    if len(b.samples) < 2 and nontriv and len(text) < 400 and kind != "corpus":
+    if nontriv and len(text) < 400 and kind != "corpus" and all(x["kind"] != kind for x in b.samples):
         b.samples.append({"kind": kind, "text": text, "outcome": rec["outcome"], "site": rec.get("site"),
                           "cpu_ms": round(rec["cpu"] * 1e3, 3)})
     return nontriv
@@ -616,27 +655,40 @@ def child_run(job, tasks, a, out: ChildOut):
     for tidx in range(a, len(tasks)):
         b = state["b"]
         kind, k = tasks[tidx]
-        if kind in ("pump", "rpump"):
+        if kind in ("pump", "rpump", "lexpump", "lexpump-big"):
             rng = task_rng(job, kind, k)
-            fam = c07_mut.PUMPS[k] if kind == "pump" else c07_mut.random_pump(rng, G.pool)
+            if kind == "pump":
+                fam = c07_mut.PUMPS[k]
+            elif kind == "rpump":
+                fam = c07_mut.random_pump(rng, G.pool)
+            else:
+                fam = c07_mut.lex_matrix_family(k, kind == "lexpump-big")
             out.line("F", {"family": fam[0], "prefix": fam[1][:300], "unit": (fam[2] or "<numbered items>")[:300],
                            "suffix": (fam[3] if fam[3] is not None else "<mirrored closers>")[:300]})
             unreg = True
             ladder = []
             kk = 16 if kind == "pump" else 8
-            b.c("pump_ladders")
+            ks = list(fam[4]) if isinstance(fam[4], list) else None
+            if ks:
+                kk = ks.pop(0)
+            b.c("pump_ladders" if not kind.startswith("lex") else "lex_matrix_ladders")
             while kk <= (fam[4] if kind == "rpump" else 1 << 20):
                 text = c07_mut.pump_text(fam, kk)
                 if len(text) > maxlen:
                     break
                 rec, text = monitored(text, None, {"kind": kind, "family": fam[0], "k": kk}, tidx, kk, unreg, verify_stage=False)
                 ladder.append((kk, rec))
-                b.c("pump_steps")
+                b.c("pump_steps" if not kind.startswith("lex") else "lex_matrix_steps")
                 if rec["outcome"] == "crash" and rec["etype"] in ("RecursionError", "MemoryError"):
                     break
                 if rec["cpu"] > budget(len(text)):
                     break
-                kk *= 2
+                if ks is not None:
+                    if not ks:
+                        break
+                    kk = ks.pop(0)
+                else:
+                    kk *= 2
             # growth analysis
             for (k0, r0), (k1, r1) in zip(ladder, ladder[1:]):
                 if r1["cpu"] >= 0.1:
@@ -669,12 +721,12 @@ def child_run(job, tasks, a, out: ChildOut):
                     b.c("over_budget_unconfirmed_observed")
                     b.extra.setdefault("over_budget_unconfirmed", []).append(wit)
             if len(ladder) >= 2:
-                b.c("pump_ladders_complete")
+                b.c("pump_ladders_complete" if not kind.startswith("lex") else "lex_matrix_ladders_complete")
             flush()
         else:
             text, seed_text, meta = gen_input(job, kind, k)
             rng = task_rng(job, kind + "/ctx", k)
-            unreg = job["unreg"] if kind == "text" else rng.random() < 0.7
+            unreg = job["unreg"] if kind == "text" else (True if kind in ("witness", "litmatrix") else rng.random() < 0.7)
             rec, text = monitored(text, seed_text, meta, tidx, 0, unreg)
             if rec["cpu"] > budget(len(text)):
                 b.c("over_budget_inputs")
@@ -714,20 +766,14 @@ def _proc_cpu(pid):
 
 
 def _dump_site(path):
-    """innermost xdsl frame of a faulthandler dump that is not a generic token helper"""
+    """mechanism site from a faulthandler dump (most recent call first)"""
     try:
         with open(path) as f:
             txt = f.read()
     except OSError:
         return "?", ""
-    first = None
-    for m in re.finditer(r'File "([^"]+)", line (\d+) in (\S+)', txt):
-        if "/xdsl/" in m.group(1) and "/verif/" not in m.group(1):
-            site = f"{os.path.basename(m.group(1))}:{m.group(3)}"
-            first = first or site
-            if m.group(3) not in GENERIC_HELPERS:
-                return site, txt[-1500:]
-    return first or "?", txt[-1500:]
+    frames = [(m.group(1), m.group(3)) for m in re.finditer(r'File "([^"]+)", line (\d+) in (\S+)', txt)]
+    return pick_site(frames), txt[:2500]
 
 
 def run_child(job, tasks, a, workdir, on_line):
@@ -839,8 +885,9 @@ def work(job):
                     total.c(k, v)
             for k, v in p["sets"].items():
                 total.sets.setdefault(k, set()).update(v)
-            if len(total.samples) < 4:
-                total.samples.extend(p["samples"][:2])
+            for x in p["samples"]:
+                if all(y["kind"] != x["kind"] for y in total.samples):
+                    total.samples.append(x)
             for k, v in p["extra"].items():
                 if isinstance(v, dict):
                     d = total.extra.setdefault(k, {})
@@ -873,7 +920,7 @@ def work(job):
             total.c("inputs_lost_in_killed_batch", max(0, tidx - st["next"]))
             wit = {"text": text if len(text) <= 20000 else text[:10000] + "\n...<cut>...\n" + text[-5000:], "len": ln,
                    "task": [kind, k, sub], "allow_unregistered": unreg}
-            if kind in ("pump", "rpump") and st["family"]:
+            if kind in ("pump", "rpump", "lexpump", "lexpump-big") and st["family"]:
                 wit.update(st["family"], k=sub)
             if len(text) <= 20000:
                 wit["replay_job"] = replay_job(text, unreg)
@@ -913,22 +960,30 @@ def work(job):
                         "30+ character tail hangs the lexer", "replay_job": replay_job('"' + "a" * 30, True)}})
     total.c("shards_done")
     d = total.dump()
-    return {"evaluations": d["evals"], "nontrivial": d["nontrivial"], "samples": d["samples"][:2], "counters": d["counters"],
+    return {"evaluations": d["evals"], "nontrivial": d["nontrivial"], "samples": sorted(d["samples"], key=lambda x: x["kind"] in ("pump", "lexpump", "litmatrix"))[:6], "counters": d["counters"],
             "sets": d["sets"], "violations": d["violations"], "extra": d["extra"]}
 
 
 # ====================================================================== lost shard -> violation (backstop)
 def on_lost(info):
-    """The supervisor above normally kills hung children itself. If the whole shard still times out, the journalled
-    in-flight input is the witness of a hang."""
+    """Backstop. The supervisor in `work` kills hung children itself, so a shard that still exceeds its wall watchdog is
+    ambiguous (overloaded machine or a hang the supervisor could not see). The journalled in-flight input is parsed once
+    more under the CPU watchdog: if that run hangs or crashes, it is the witness of a violation; otherwise the shard stays
+    lost (inconclusive)."""
     if info.get("status") != "timeout":
         return None
     text = info.get("journal") or ""
     if not text.strip():
         return None
-    return [{"key": "hang:shard-watchdog", "summary": f"shard {info.get('idx')} exceeded its wall watchdog while parsing the journalled input",
-             "witness": {"text": text[:20000], "job": {k: v for k, v in info.get("job", {}).items() if k != "text"},
-                         "replay_job": replay_job(text[:20000], True)}}]
+    os.environ.setdefault("XDSL_VERIF", "1")
+    try:
+        res = work(replay_job(text[:20000], True))
+    except Exception:  # noqa: BLE001  could not confirm: leave the shard lost
+        return None
+    vs = [v for v in res.get("violations", []) if v["key"].startswith(("hang:", "native-crash:", "superlinear:"))]
+    for v in vs:
+        v["summary"] = f"(shard {info.get('idx')} lost; journalled input re-run) " + v.get("summary", "")
+    return vs or None
 
 
 # ====================================================================== finish: reach thresholds
@@ -950,15 +1005,20 @@ def finish(agg, tier):
     need("outcome_diag-parse", exp // 4)
     need("outcome_diag-verify", exp // 2000)
     need("tokens_lexed", 20 * exp)
-    need("string_literals_lexed", exp)
+    need("string_literals_lexed", exp // 2)
     need("inputs_with_non_ascii", exp // 100)
     need("pump_ladders_complete", 60)
+    need("lex_matrix_ladders", 15000)
+    need("inputs_witness", 30)
+    need("inputs_litmatrix", 14000)
     need("string_regex_probe_runs", z["shards"])
-    if len(agg.sets.get("exit_functions", ())) < 150:
-        reasons.append(f"only {len(agg.sets.get('exit_functions', ()))} distinct parser exit functions reached (< 150)")
+    if len(agg.sets.get("exit_functions", ())) < 120:
+        reasons.append(f"only {len(agg.sets.get('exit_functions', ()))} distinct parser exit functions reached (< 120)")
     if len(agg.nontrivial) < exp // 3:
         reasons.append(f"distinct non-trivial inputs {len(agg.nontrivial)} < {exp // 3}")
     cov = {"tierB_crash_keys_observed": len(agg.sets.get("tierB_crash_sites", ())),
+           "tierB_crash_keys": sorted(agg.sets.get("tierB_crash_sites", ())),
+           "verify_stage_crash_keys_observed": sorted(agg.sets.get("verify_stage_crash_sites_observed", ())),
            "tier_b_in_verdict": TIER_B_IN_VERDICT,
            "normal_cost_us_per_char": round(c.get("cpu_us_total", 0) / max(1, c.get("chars_parsed", 1)), 3),
            "extra": {k: (v if not isinstance(v, dict) or len(v) <= 40 else dict(list(v.items())[:40])) for k, v in agg.extra.items()}}
